@@ -196,6 +196,16 @@ def run_files(ctx, exe, ncases, npts, tag, state, replay_case=None):
     if st.get("factorial0_ms", 0) > 1000:
         ctx.note("factorial(0) took %d ms and returned %d (unrepaired loop `for (unsigned i = n-1; i > 1; i--)`); only one order-0 case is run" % (st["factorial0_ms"], st["factorial0_value"]))
     compare(ctx, cases, impl, model, state, tag)
+    if not replay_case:
+        co = st.get("concurrent_outcome")
+        if co is None:
+            ctx.tie_ok = False; ctx.broken.append({"kind": "the concurrent phase of the convolution harness did not run", "tag": tag})
+        elif co != 0:
+            ctx.report("concurrent-convolve-differs" if co > 0 else "concurrent-convolve-crash",
+                       {"tag": tag, "threads": st.get("concurrent_threads"), "calls": st.get("concurrent_convolve_calls"), "outcome": co,
+                        "replay_cmd": "VERIF_SEED=%d python3 bin/check.py C14 --tier %s" % (ctx.seed, ctx.tier)},
+                       ("%d tables convolved while other threads were convolving OTHER tables differ from the same convolutions made alone" % co) if co > 0
+                       else "the process convolving different tables from %s threads at the same time died (signal %d); each of these calls succeeds alone" % (st.get("concurrent_threads"), -co))
     return st
 
 def near_coincident(rho):
